@@ -138,7 +138,7 @@ class Container(dict):
             if v1.__class__.__name__ == "ndarray" or v2.__class__.__name__ == "ndarray":
                 import numpy
                 return numpy.array_equal(v1, v2)
-            return v1 == v2
+            return v1 is v2 or v1 == v2
         for k, v in self.__class__.items(self):
             if isinstance(k, str) and k.startswith("_"):
                 continue
